@@ -39,9 +39,25 @@ func (c *Ctx) originsIP(fn *ssa.Function, v ssa.Value, depth int) []Origin {
 			call, _ := o.V.(*ssa.Call)
 			if call != nil {
 				if callee := call.Call.StaticCallee(); callee != nil && callee.Pkg != nil && strings.HasPrefix(callee.Pkg.Pkg.Path(), modPath) && len(callee.Blocks) > 0 && depth < 3 && callee.Signature.Results().Len() == 1 {
+					// the helper's result, with its parameters bound to this call's arguments
 					for _, ret := range returnsOf(callee) {
-						if len(ret.Results) == 1 {
-							out = append(out, c.originsIP(callee, ret.Results[0], depth+1)...)
+						if len(ret.Results) != 1 {
+							continue
+						}
+						for _, ro := range origins(ret.Results[0], sliceOpts{}) {
+							if par, ok := ro.V.(*ssa.Parameter); ok && ro.Kind == "param" {
+								if idx := paramIndex(callee, par); idx >= 0 && idx < len(call.Call.Args) {
+									out = append(out, c.originsIP(fn, call.Call.Args[idx], depth+1)...)
+									continue
+								}
+							}
+							if ro.Kind == "call" {
+								if inner, ok := ro.V.(*ssa.Call); ok {
+									out = append(out, c.originsIP(callee, inner, depth+1)...)
+									continue
+								}
+							}
+							out = append(out, ro)
 						}
 					}
 					continue
